@@ -1163,27 +1163,35 @@ NS_XSI = 'http://www.w3.org/2001/XMLSchema-instance'
 
 
 def craft_candidates(raw):
-    """[(handle, 'Source' | 'ConditionSignaled')] of the descriptors in the UPDATE parts of a DescriptionModificationReport"""
+    """[(handle, 'Source' | 'ConditionSignaled' | None, modification type, ParentDescriptor)] of all descriptors in the parts of
+    a DescriptionModificationReport"""
     from lxml import etree
     res = []
     root = etree.fromstring(raw)
     for part in root.iter(f'{{{NS_MSG}}}ReportPart'):
-        if part.get('ModificationType') != 'Upt':
-            continue
+        mod = part.get('ModificationType', 'Upt')
         for d in part.findall(f'{{{NS_MSG}}}Descriptor'):
             typ = (d.get(f'{{{NS_XSI}}}type') or '').split(':')[-1]
-            if typ in ('AlertConditionDescriptor', 'LimitAlertConditionDescriptor'):
-                res.append((d.get('Handle'), 'Source'))
-            elif typ == 'AlertSignalDescriptor':
-                res.append((d.get('Handle'), 'ConditionSignaled'))
+            what = ('Source' if typ in ('AlertConditionDescriptor', 'LimitAlertConditionDescriptor')
+                    else 'ConditionSignaled' if typ == 'AlertSignalDescriptor' else None)
+            res.append((d.get('Handle'), what, mod, part.get('ParentDescriptor')))
     return res
 
 
-def craft_report(raw, edits):
-    """Same report (same MdibVersion, same DescriptorVersion, same states), indexed attributes of the descriptors in
-    `edits` (handle -> {'Source': [...]} | {'ConditionSignaled': h | None}) replaced."""
+def craft_report(raw, edits, retype=None):
+    """Same report (same MdibVersion, same DescriptorVersion, same states); indexed members of the descriptors in `edits`
+    (handle -> {'Source': [...]}, {'ConditionSignaled': h | None}, {'parent': h}) replaced; `retype` maps the ModificationType of
+    the parts (e.g. {'Upt': 'Crt'}: a CREATE part for descriptors the receiver still stores)."""
     from lxml import etree
     root = etree.fromstring(raw)
+    for part in root.iter(f'{{{NS_MSG}}}ReportPart'):
+        mod = part.get('ModificationType', 'Upt')
+        if retype and mod in retype:
+            part.set('ModificationType', retype[mod])
+        for d in part.findall(f'{{{NS_MSG}}}Descriptor'):
+            e = edits.get(d.get('Handle'))
+            if e and e.get('parent'):
+                part.set('ParentDescriptor', e['parent'])
     for d in root.iter(f'{{{NS_MSG}}}Descriptor'):
         e = edits.get(d.get('Handle'))
         if not e:
@@ -1209,25 +1217,63 @@ def craft_report(raw, edits):
 
 
 def gen_crafted(rng, mdib, raw):
-    """a 'crafted' history item for the last DescriptionModificationReport, or None"""
+    """'crafted' history items for the DescriptionModificationReport that was just delivered: what a lossy / duplicating
+    transport or a provider that manages versions itself can make of it -
+      * the same parts with changed indexed members and unchanged versions,
+      * UPDATE parts arriving as CREATE parts (the receiver still stores the handles: missed deletion),
+      * CREATE parts a second time, differing in parent / Source / ConditionSignaled,
+      * DELETE parts a second time (handles are gone).
+    Returns a list (possibly empty)."""
     from sdc11073.xml_types import pm_qnames as q
     cands = craft_candidates(raw)
     if not cands:
-        return None
+        return []
     d = mdib.descriptions
     metrics = [x.Handle for x in (d.NODETYPE.get(q.NumericMetricDescriptor) or [])]
     conds = [x.Handle for n in ('AlertConditionDescriptor', 'LimitAlertConditionDescriptor')
              for x in (d.NODETYPE.get(getattr(q, n)) or [])]
-    edits = {}
-    for h, what in cands:
-        if what == 'Source':
-            src = rng.sample(metrics, min(len(metrics), rng.randint(0, 3)))
-            if src and rng.random() < 0.2:
-                src.append(src[0])
-            edits[h] = {'Source': src}
+
+    def other_parent(parent):
+        p = d.handle.get_one(parent, allow_none=True) if parent else None
+        if p is None:
+            return None
+        sibs = sorted(x.Handle for x in (d.NODETYPE.get(p.NODETYPE) or []) if x.Handle != parent)
+        return rng.choice(sibs) if sibs else None
+
+    def edits_for(mods, with_parent):
+        edits = {}
+        for h, what, mod, parent in cands:
+            if mod not in mods:
+                continue
+            e = {}
+            if what == 'Source':
+                src = rng.sample(metrics, min(len(metrics), rng.randint(0, 3)))
+                if src and rng.random() < 0.2:
+                    src.append(src[0])
+                e['Source'] = src
+            elif what == 'ConditionSignaled':
+                e['ConditionSignaled'] = rng.choice([*conds, None])
+            if with_parent and rng.random() < 0.6:
+                np = other_parent(parent)
+                if np:
+                    e['parent'] = np
+            if e:
+                edits[h] = e
+        return edits
+    mods = {m for _, _, m, _ in cands}
+    items = []
+    if 'Upt' in mods:
+        if rng.random() < 0.5:
+            e = edits_for({'Upt'}, False)
+            if e:
+                items.append({'tx': 'crafted', 'edits': e})
         else:
-            edits[h] = {'ConditionSignaled': rng.choice([*conds, None])}
-    return {'tx': 'crafted', 'edits': edits}
+            items.append({'tx': 'crafted', 'edits': edits_for({'Upt'}, True), 'retype': {'Upt': 'Crt'}})
+    if 'Crt' in mods and rng.random() < 0.9:
+        items.append({'tx': 'crafted', 'edits': edits_for({'Crt'}, True)})
+    if 'Del' in mods and rng.random() < 0.7:
+        items.append({'tx': 'crafted', 'edits': {}})
+    return items
 
 
 def run_consumer_part(ctx, script=None, path=None):
@@ -1316,9 +1362,11 @@ def run_consumer_part(ctx, script=None, path=None):
                 if last_dmr is None:
                     ctx.count('crafted-report:no-template')
                     continue
-                w2 = dataclasses.replace(last_dmr, raw=craft_report(last_dmr.raw, item['edits']))
+                w2 = dataclasses.replace(last_dmr, raw=craft_report(last_dmr.raw, item['edits'], item.get('retype')))
                 deliver(w2, item, 'crafted-DescriptionModificationReport')
                 crafted_sampled.append(1)
+                kinds = sorted({m for _, _, m, _ in craft_candidates(w2.raw)})
+                ctx.count('crafted-report-parts:' + '+'.join(kinds) + (':retyped' if item.get('retype') else ''))
                 for e in item['edits'].values():
                     ctx.count('crafted-edit:' + ','.join(sorted(e)))
                 deliver(last_dmr, {'tx': 'redeliver-original'}, 're-delivered-DescriptionModificationReport')   # back in sync
@@ -1353,10 +1401,8 @@ def run_consumer_part(ctx, script=None, path=None):
                 deliver(w, tx, w.short)
                 if w.short == 'DescriptionModificationReport':
                     last_dmr = w
-                    if script is None and rng.random() < 0.6:
-                        crafted = gen_crafted(rng, cons.mdib, w.raw)
-                        if crafted is not None:
-                            todo.insert(0, crafted)
+                    if script is None and rng.random() < 0.9:
+                        todo[0:0] = gen_crafted(rng, cons.mdib, w.raw)
         for name, mgr in prov.device._subscriptions_managers.items():  # noqa: SLF001
             for p in mk_oracle.table_problems(mgr._subscriptions, f'subscriptions:{name}'):  # noqa: SLF001
                 ctx.fail('lookup-disagrees-with-scan:subscriptions', p, {'kind': 'subscriptions', 'when': 'end of run'})
